@@ -98,7 +98,7 @@ def cases(ctx):
         out.append(("fixture:" + name, {"settings": dict(SETTINGS), "calls": [{"root": doc}]}))
     n = 400 if ctx.tier == "thorough" else 14
     for k in range(n):
-        feats = gen.FEATURE_SETS["defaults"] if k % 3 != 2 else gen.FEATURE_SETS["default"]
+        feats = (gen.FEATURE_SETS["defaults"] if k % 3 != 2 else gen.FEATURE_SETS["default"]) | ({"null_props"} if k % 2 else set()) | ({"map_keys", "any"} if k % 5 == 1 else set())
         out.append(("gen:%d" % k, {"settings": dict(SETTINGS), "calls": [{"root": gen.gen_universe(ctx.rng, 3 + k % 5, feats)}]}))
     return out
 
